@@ -690,6 +690,8 @@ std::size_t CDNS::FilePreamble::write(CdnsEncoder& enc)
 void CDNS::FilePreamble::read(CdnsDecoder& dec)
 {
     reset();
+    // Private version is optional, it's present only if it's found in the input
+    m_private_version = boost::none;
     bool is_m_major_format_version = false;
     bool is_m_minor_format_version = false;
     bool is_m_block_parameters = false;
